@@ -1,0 +1,361 @@
+//! Verification hooks (compiled only with `--cfg weechess_verif`).
+//!
+//! Nothing in here changes what the engine does when the guard is off. With the
+//! guard on it gives an external harness access to the otherwise private search
+//! internals: small artifacts, a synchronous entry point with an explicit worker
+//! count, cancellation at a chosen node index, and a wrapper around the real
+//! transposition table types.
+
+use std::sync::atomic::{AtomicBool as StdAtomicBool, AtomicUsize, Ordering as StdOrdering};
+use std::sync::Arc as StdArc;
+
+use rand::SeedableRng;
+use weechess_core::{Hash, Move, State, ZobristHasher};
+
+use super::{
+    CancellationToken, EvaluationKind, RandomNumberGenerator, SearchArtifact, Searcher,
+    StateHistory, StatusEvent, TranspositionBucket, TranspositionEntry, TranspositionTable,
+    TranspositionTableAccess,
+};
+use crate::eval;
+
+/// Cancellation plan attached to a token by the harness.
+///
+/// * `cancel_at`: raise the cancellation flag when the `k`-th node (counted over
+///   all workers and iterations of one search) is entered; `0` = never,
+///   `usize::MAX` is reserved for "before the first node" (see `verif_analyze_sync`).
+/// * `poll_interval`: additionally poll the flag every `n` worker-local nodes
+///   (`0` = only the shipped poll).
+/// * `hard_limit`: force an interrupt once this many nodes were entered (`0` = none)
+///   and remember that it was needed (`overrun`), so that a search that ignores
+///   the flag can be reported instead of hanging the harness.
+#[derive(Debug, Default)]
+pub struct Plan {
+    pub cancel_at: AtomicUsize,
+    pub poll_interval: AtomicUsize,
+    pub hard_limit: AtomicUsize,
+    pub nodes: AtomicUsize,
+    pub nodes_at_cancel: AtomicUsize,
+    pub cancelled: StdAtomicBool,
+    pub overrun: StdAtomicBool,
+}
+
+impl Plan {
+    pub fn new(cancel_at: usize, poll_interval: usize, hard_limit: usize) -> StdArc<Self> {
+        StdArc::new(Self {
+            cancel_at: AtomicUsize::new(cancel_at),
+            poll_interval: AtomicUsize::new(poll_interval),
+            hard_limit: AtomicUsize::new(hard_limit),
+            ..Default::default()
+        })
+    }
+
+    pub fn nodes(&self) -> usize {
+        self.nodes.load(StdOrdering::SeqCst)
+    }
+
+    pub fn nodes_at_cancel(&self) -> usize {
+        self.nodes_at_cancel.load(StdOrdering::SeqCst)
+    }
+
+    pub fn was_cancelled(&self) -> bool {
+        self.cancelled.load(StdOrdering::SeqCst)
+    }
+
+    pub fn overrun(&self) -> bool {
+        self.overrun.load(StdOrdering::SeqCst)
+    }
+}
+
+static GLOBAL_PLAN: std::sync::RwLock<Option<StdArc<Plan>>> = std::sync::RwLock::new(None);
+
+/// Plan used by searches whose token carries none (the public `Searcher::analyze`).
+pub fn set_global_plan(plan: Option<StdArc<Plan>>) {
+    *GLOBAL_PLAN.write().unwrap() = plan;
+}
+
+/// Called at the entry of every search node, before the shipped poll.
+/// Returns true when the search has to unwind now.
+pub(super) fn on_node(token: &CancellationToken, worker_nodes: usize) -> bool {
+    let global;
+    let plan: &Plan = match &token.verif_plan {
+        Some(p) => p,
+        None => {
+            global = GLOBAL_PLAN.read().unwrap().clone();
+            match &global {
+                Some(p) => p,
+                None => return false,
+            }
+        }
+    };
+
+    let n = plan.nodes.fetch_add(1, StdOrdering::SeqCst) + 1;
+
+    let cancel_at = plan.cancel_at.load(StdOrdering::Relaxed);
+    if cancel_at != 0 && n == cancel_at {
+        plan.nodes_at_cancel.store(n, StdOrdering::SeqCst);
+        plan.cancelled.store(true, StdOrdering::SeqCst);
+        token.cancel();
+    }
+
+    let hard_limit = plan.hard_limit.load(StdOrdering::Relaxed);
+    if hard_limit != 0 && n >= hard_limit {
+        plan.overrun.store(true, StdOrdering::SeqCst);
+        token.cancel();
+        return true;
+    }
+
+    let interval = plan.poll_interval.load(StdOrdering::Relaxed);
+    interval != 0 && worker_nodes % interval == 0 && token.is_cancelled()
+}
+
+/// Fresh artifact for a search that was given none, sized by the environment
+/// variable `WEECHESS_VERIF_TT_MB` (unset: the shipped 1 GiB default is used).
+/// Draws the hasher from the rng exactly as the shipped path does.
+pub(super) fn default_artifact(rng: &mut RandomNumberGenerator) -> Option<SearchArtifact> {
+    let mb: usize = std::env::var("WEECHESS_VERIF_TT_MB").ok()?.parse().ok()?;
+    const TABLE_COUNT: usize = 128;
+    let hasher = ZobristHasher::with(rng);
+    let tables = (0..TABLE_COUNT)
+        .map(|_| TranspositionTable::with_memory(usize::max(mb, 1) * 1024 * 1024 / TABLE_COUNT))
+        .collect();
+
+    Some(SearchArtifact {
+        hasher,
+        transpositions: TranspositionTableAccess::with_tables(tables),
+        state_history: StateHistory::new(),
+    })
+}
+
+impl SearchArtifact {
+    /// A small artifact: `tables` sub-tables of `buckets` buckets, hasher drawn from `seed`.
+    pub fn verif_new(seed: u64, tables: usize, buckets: usize) -> Self {
+        let mut rng = RandomNumberGenerator::seed_from_u64(seed);
+        let hasher = ZobristHasher::with(&mut rng);
+        let tables = (0..tables)
+            .map(|_| TranspositionTable::with_bucket_count(buckets))
+            .collect();
+
+        Self {
+            hasher,
+            transpositions: TranspositionTableAccess::with_tables(tables),
+            state_history: StateHistory::new(),
+        }
+    }
+
+    /// Records a position in the history as if it had been a search root earlier in the game.
+    pub fn verif_record_history(&mut self, state: &State) {
+        let hash = self.hasher.hash(state);
+        self.state_history.increment(hash);
+    }
+
+    pub fn verif_history_contains(&self, state: &State) -> bool {
+        self.state_history
+            .lookup(&self.hasher.hash(state))
+            .is_some()
+    }
+
+    pub fn verif_history_len(&self) -> usize {
+        self.state_history.states.len()
+    }
+
+    pub fn verif_hash(&self, state: &State) -> Hash {
+        self.hasher.hash(state)
+    }
+
+    pub fn verif_find(&self, state: &State) -> Option<VerifEntry> {
+        self.transpositions
+            .find(self.hasher.hash(state))
+            .map(VerifEntry::from)
+    }
+
+    /// (reported entry count, occupied slots, capacity)
+    pub fn verif_table_stats(&self) -> (usize, usize, usize) {
+        (
+            self.transpositions.entries(),
+            occupied_slots(&self.transpositions),
+            self.transpositions.max_entries(),
+        )
+    }
+}
+
+impl Searcher {
+    /// Runs the real `analyze_iterative` on the calling thread.
+    ///
+    /// `plan.cancel_at == usize::MAX` cancels before the first node.
+    pub fn verif_analyze_sync<F>(
+        state: State,
+        evaluator: &eval::Evaluator,
+        seed: u64,
+        max_depth: Option<usize>,
+        artifact: Option<SearchArtifact>,
+        workers: Option<usize>,
+        plan: Option<StdArc<Plan>>,
+        sink: &mut F,
+    ) -> SearchArtifact
+    where
+        F: FnMut(StatusEvent),
+    {
+        let rng = RandomNumberGenerator::seed_from_u64(seed);
+        let (signal_token, mut listen_token) = CancellationToken::new();
+        if let Some(plan) = &plan {
+            if plan.cancel_at.load(StdOrdering::Relaxed) == usize::MAX {
+                plan.cancelled.store(true, StdOrdering::SeqCst);
+                signal_token.cancel();
+            }
+        }
+
+        listen_token.verif_plan = plan;
+        Self::analyze_iterative(
+            state,
+            evaluator,
+            rng,
+            max_depth,
+            listen_token,
+            artifact,
+            workers,
+            sink,
+        )
+    }
+}
+
+#[derive(Debug, Clone, Copy, PartialEq, Eq, Hash)]
+pub struct VerifEntry {
+    /// 0 = exact, 1 = upper bound, 2 = lower bound
+    pub kind: u8,
+    pub performed_move: Move,
+    pub depth: usize,
+    pub max_depth: usize,
+    pub evaluation: i32,
+}
+
+impl From<TranspositionEntry> for VerifEntry {
+    fn from(e: TranspositionEntry) -> Self {
+        Self {
+            kind: match e.kind {
+                EvaluationKind::Exact => 0,
+                EvaluationKind::UpperBound => 1,
+                EvaluationKind::LowerBound => 2,
+            },
+            performed_move: e.performed_move,
+            depth: e.depth,
+            max_depth: e.max_depth,
+            evaluation: e.evaluation.into(),
+        }
+    }
+}
+
+impl From<VerifEntry> for TranspositionEntry {
+    fn from(e: VerifEntry) -> Self {
+        Self {
+            kind: match e.kind {
+                0 => EvaluationKind::Exact,
+                1 => EvaluationKind::UpperBound,
+                _ => EvaluationKind::LowerBound,
+            },
+            performed_move: e.performed_move,
+            depth: e.depth,
+            max_depth: e.max_depth,
+            evaluation: eval::Evaluation::from(e.evaluation),
+        }
+    }
+}
+
+fn occupied_slots(access: &TranspositionTableAccess) -> usize {
+    access
+        .tables
+        .iter()
+        .map(|t| {
+            t.read()
+                .unwrap()
+                .buckets
+                .iter()
+                .map(|b| b.entries.iter().filter(|e| e.is_some()).count())
+                .sum::<usize>()
+        })
+        .sum()
+}
+
+/// The real sharded transposition table behind a public face.
+pub struct VerifTable(TranspositionTableAccess);
+
+impl VerifTable {
+    pub const BUCKET_SIZE: usize = TranspositionBucket::BUCKET_SIZE;
+
+    pub fn new(tables: usize, buckets: usize) -> Self {
+        Self(TranspositionTableAccess::with_tables(
+            (0..tables)
+                .map(|_| TranspositionTable::with_bucket_count(buckets))
+                .collect(),
+        ))
+    }
+
+    pub fn insert(&self, hash: Hash, entry: VerifEntry) {
+        self.0.insert(hash, entry.into());
+    }
+
+    pub fn find(&self, hash: Hash) -> Option<VerifEntry> {
+        self.0.find(hash).map(VerifEntry::from)
+    }
+
+    pub fn entries(&self) -> usize {
+        self.0.entries()
+    }
+
+    pub fn max_entries(&self) -> usize {
+        self.0.max_entries()
+    }
+
+    pub fn saturation(&self) -> f32 {
+        self.0.saturation()
+    }
+
+    pub fn occupied_slots(&self) -> usize {
+        occupied_slots(&self.0)
+    }
+
+    /// table -> bucket -> slot contents, in storage order
+    pub fn slots(&self) -> Vec<Vec<Vec<Option<(Hash, VerifEntry)>>>> {
+        self.0
+            .tables
+            .iter()
+            .map(|t| {
+                t.read()
+                    .unwrap()
+                    .buckets
+                    .iter()
+                    .map(|b| {
+                        b.entries
+                            .iter()
+                            .map(|e| e.map(|(h, e)| (h, VerifEntry::from(e))))
+                            .collect()
+                    })
+                    .collect()
+            })
+            .collect()
+    }
+
+    pub fn used_slots(&self) -> Vec<usize> {
+        self.0
+            .tables
+            .iter()
+            .map(|t| t.read().unwrap().used_slots)
+            .collect()
+    }
+
+    pub fn deep_clone(&self) -> Self {
+        Self(TranspositionTableAccess::with_tables(
+            self.0
+                .tables
+                .iter()
+                .map(|t| {
+                    let t = t.read().unwrap();
+                    TranspositionTable {
+                        buckets: t.buckets.clone(),
+                        used_slots: t.used_slots,
+                    }
+                })
+                .collect(),
+        ))
+    }
+}
